@@ -260,9 +260,176 @@ func TestVerifC06Upstream(t *testing.T) {
 
 		return nil
 	})
+	// Upstream connections as STREAMS with time: the reply of an earlier
+	// exchange arrives in two parts, the second one only after the read
+	// deadline of that exchange has passed (the upstream was slow).  Whatever
+	// the code does with such a connection, the next exchange - which the
+	// upstream answers completely and at once - must decode as on a fresh
+	// upstream: bytes of the late remainder must not be taken for its reply.
+	lateFull := c06uReply("victim-a.example.", 0x1000, "203.0.113.7")
+	var lateCuts []int
+	for k := 0; k <= len(lateFull)+2; k += vrt.Pick(r, 5, 1) {
+		lateCuts = append(lateCuts, k)
+	}
+	r.Bound("upstream_late_cuts", len(lateCuts))
+	vrt.Part(r, "upstream-late", func(emit func(c06lCase)) {
+		for _, nw := range []string{"udp", "tcp"} {
+			for _, k := range lateCuts {
+				for _, n := range []int{1, 2} {
+					emit(c06lCase{Network: nw, Cut: k, Slow: n})
+				}
+			}
+		}
+	}, func(c c06lCase) []vrt.Finding {
+		nw := NetworkUDP
+		if c.Network == "tcp" {
+			nw = NetworkTCP
+		}
+		run := func(slow int) (out string, dials int) {
+			u := NewUpstreamPlain(&UpstreamPlainConfig{Network: nw, Address: netip.MustParseAddrPort("192.0.2.53:53"), Timeout: time.Second})
+			f := func(_ context.Context) (net.Conn, error) {
+				dials++
+
+				return &c06sConn{tcp: nw == NetworkTCP, cut: c.Cut, probe: probeName, probeReply: full, slowReply: lateFull}, nil
+			}
+			u.connsPoolUDP = pool.NewPool(4, f)
+			u.connsPoolTCP = pool.NewPool(4, f)
+			for i := 0; i < slow; i++ {
+				req := &dns.Msg{}
+				req.SetQuestion("victim-a.example.", dns.TypeA)
+				req.Id = 0x1000
+				_, _, _ = u.Exchange(context.Background(), req)
+			}
+			req := &dns.Msg{}
+			req.SetQuestion(probeName, dns.TypeA)
+			req.Id = 0x7777
+			resp, _, err := u.Exchange(context.Background(), req)
+			if err != nil {
+				return "err " + err.Error(), dials
+			}
+
+			return strings.Join(strings.Fields(resp.String()), " "), dials
+		}
+		got, dials := run(c.Slow)
+		want, _ := run(0)
+		r.Trans(c.Slow + 2)
+		r.Class("upstream-late-" + c.Network)
+		r.State(fmt.Sprint("late", c.Network, c.Cut, c.Slow, dials, got == want))
+		if got != want {
+			return vrt.F("decode-depends-on-history/upstream-late-"+c.Network, "upstream %s: %d earlier exchange(s) whose reply arrived %d bytes in time and the rest after the deadline, then a query for %s that is answered at once:\n   this upstream : %s\n   fresh upstream: %s", c.Network, c.Slow, c.Cut, probeName, got, want)
+		}
+
+		return nil
+	})
 	r.Finish()
 	os.Exit(0)
 }
+
+type c06lCase struct {
+	Network string `json:"network"`
+	// Cut is the number of bytes of the slow reply that arrive in time.
+	Cut int `json:"bytes_in_time"`
+	// Slow is the number of earlier slow exchanges.
+	Slow int `json:"slow_exchanges"`
+}
+
+// c06sConn is an in-memory upstream connection with stream semantics and a
+// notion of time: a query for the probe name is answered completely at once;
+// any other query gets the first cut bytes of slowReply, then the read
+// deadline passes (Read reports a timeout), and the rest arrives afterwards.
+type c06sConn struct {
+	tcp        bool
+	cut        int
+	probe      string
+	probeReply []byte
+	slowReply  []byte
+	out        []byte
+	inbox      [][]byte
+	late       [][]byte
+	closed     bool
+}
+
+func (c *c06sConn) frame(b []byte) []byte {
+	if !c.tcp {
+		return b
+	}
+	f := make([]byte, 2+len(b))
+	binary.BigEndian.PutUint16(f, uint16(len(b)))
+	copy(f[2:], b)
+
+	return f
+}
+
+func (c *c06sConn) Write(p []byte) (int, error) {
+	if c.closed {
+		return 0, net.ErrClosed
+	}
+	c.out = append(c.out, p...)
+	msg := c.out
+	if c.tcp {
+		if len(c.out) < 2 || len(c.out) < 2+int(binary.BigEndian.Uint16(c.out)) {
+			return len(p), nil
+		}
+		msg = c.out[2:]
+	}
+	c.out = nil
+	q := &dns.Msg{}
+	if err := q.Unpack(msg); err != nil || len(q.Question) != 1 {
+		return len(p), nil
+	}
+	if strings.EqualFold(q.Question[0].Name, c.probe) {
+		c.inbox = append(c.inbox, c.frame(c.probeReply))
+
+		return len(p), nil
+	}
+	f := c.frame(c.slowReply)
+	k := min(c.cut, len(f))
+	if c.tcp {
+		if k > 0 {
+			c.inbox = append(c.inbox, f[:k])
+		}
+		if k < len(f) {
+			c.late = append(c.late, f[k:])
+		}
+	} else {
+		// A datagram arrives whole or not at all: in time when the cut is at
+		// its end, late otherwise.
+		if k == len(f) {
+			c.inbox = append(c.inbox, f)
+		} else {
+			c.late = append(c.late, f)
+		}
+	}
+
+	return len(p), nil
+}
+
+func (c *c06sConn) Read(p []byte) (int, error) {
+	if c.closed {
+		return 0, net.ErrClosed
+	}
+	if len(c.inbox) == 0 {
+		// Nothing more arrives before the deadline; what is late arrives
+		// after it.
+		c.inbox, c.late = c.late, nil
+
+		return 0, &net.OpError{Op: "read", Net: "tcp", Err: os.ErrDeadlineExceeded}
+	}
+	n := copy(p, c.inbox[0])
+	if c.tcp && n < len(c.inbox[0]) {
+		c.inbox[0] = c.inbox[0][n:]
+	} else {
+		c.inbox = c.inbox[1:]
+	}
+
+	return n, nil
+}
+func (c *c06sConn) Close() error                     { c.closed = true; return nil }
+func (c *c06sConn) LocalAddr() net.Addr              { return &net.UDPAddr{} }
+func (c *c06sConn) RemoteAddr() net.Addr             { return &net.UDPAddr{} }
+func (c *c06sConn) SetDeadline(time.Time) error      { return nil }
+func (c *c06sConn) SetReadDeadline(time.Time) error  { return nil }
+func (c *c06sConn) SetWriteDeadline(time.Time) error { return nil }
 
 type c06aCase struct {
 	UDP string `json:"udp_socket_delivers"`
